@@ -47,8 +47,92 @@ impl Sim {
     }
 }
 
+// ---------------------------------------------------------------- whole train step (TrainFull.v)
+/// Lock-step on the WHOLE `SetSpeedTrainSim::step` / `SpeedLimitTrainSim::step` (train dynamics +
+/// consist + locomotives, model coq/model/TrainFull.v) over generated routes, trains and consists,
+/// and on whole runs of several such steps; the level oracle is applied after every sampled step.
+fn full_outcome(s: &crate::train::StepRec) -> Outcome {
+    use crate::train::outs_post;
+    match (&s.post, &s.post_con) {
+        (Ok(p), Some(c)) => { let mut o = outs_post(p); o.extend(outs_consist(c)); Outcome::Ok(o) }
+        (Ok(p), None) => Outcome::Ok(outs_post(p)),
+        (Err((-1, m)), _) => Outcome::Panic(m.clone()),
+        (Err((998, m)), _) => { let (c, _) = consist_err_code(&anyhow::anyhow!("{}", m)); Outcome::Err(c, m.clone()) }
+        (Err((c, m)), _) => Outcome::Err(*c, m.clone()),
+    }
+}
+fn full_cases(r: &mut Rng, n: usize, sink: &mut Sink) {
+    use crate::c12::{sample_steps, sl_opts, ss_opts, step_tags};
+    use crate::train::*;
+    record_consists(true);
+    let per_run = 10usize;
+    let mut made = 0usize; let mut t = 0usize;
+    while made < n {
+        let ss = t % 2 == 0;
+        let mut rr = r.fork();
+        let ctx = if ss {
+            let mut o = ss_opts(&mut rr, t, t % 4 != 0); o.n_steps = 25 + rr.below(50); o.default_consist = t % 6 == 5;
+            if o.init == 2 { o.init = 1; }
+            ss_run(&mut rr, format!("full{}", t), &o)
+        } else {
+            let mut o = sl_opts(&mut rr, t); o.max_steps = 40 + rr.below(60); o.default_consist = t % 6 == 5;
+            sl_run(&mut rr, format!("full{}", t), &o)
+        };
+        t += 1;
+        if ctx.steps.is_empty() { if t > 50 * (n + 1) { break; } continue; }
+        let kind = if ss { "ss_full_step" } else { "sl_full_step" };
+        let fm = |c: &Consist| c.force_max().ok().map(|f| f.value);
+        let term = |s: &StepRec, run_n: Option<usize>| -> String {
+            let (con, fmax) = match s.pre_con.as_ref().and_then(|c| fm(c).map(|f| (c, f))) { Some(x) => x, None => return String::new() };
+            if has_hybrid(con) { return String::new(); }
+            let e = &ctx.envs[s.ver];
+            if ss {
+                let head = match run_n { Some(k) => format!("x_ss_full_run {}", format!("{}%N", k)), None => "x_ss_full_step".to_string() };
+                format!("{} {} {} {} {} {} {} {}", head, e.env_coq, cfl(&ctx.times), cfl(&ctx.speeds), cf(fmax), coq_tstate(&s.pre), coq_cache(&s.pre_cache), coq_consist(con))
+            } else {
+                let head = match run_n { Some(k) => format!("x_sl_full_run {}", format!("{}%N", k)), None => "x_sl_full_step".to_string() };
+                let fb = match &s.pre_fb { Some(f) => f, None => return String::new() };
+                format!("{} {} {} {} (Build_SLState {} {} {} {}) {}", head, e.env_coq, e.pts_coq, cf(fmax), coq_tstate(&s.pre), coq_cache(&s.pre_cache), coq_fb(fb), cnat(s.pre_idx), coq_consist(con))
+            }
+        };
+        for i in sample_steps(&mut rr, &ctx, per_run) {
+            let s = &ctx.steps[i];
+            let mut tags = step_tags(&ctx, s, if ss { "set_speed" } else { "speed_limit" });
+            if let Some(c) = &s.pre_con { tags.push(format!("units:{}", c.loco_vec.len())); }
+            let mut fails = vec![];
+            let mut in_domain = !ctx.tags.iter().any(|t| t == "init:inconsistent");
+            if let (Ok(p), Some(c)) = (&s.post, &s.post_con) {
+                oracle_levels(&p.st, c, &mut fails);
+                if c.loco_vec.iter().any(|l| l.state.pwr_out_max.value < 0.0) { tags.push("neg_limit:yes".into()); in_domain = false; }
+                let pw = p.st.pwr_whl_out.value;
+                tags.push(format!("sign:{}", if pw > 0.0 { "traction" } else if pw < 0.0 { "braking" } else { "zero" }));
+            }
+            sink.put(Case { id: format!("{}/{}/{}", kind, ctx.id, s.k), kind: kind.into(), coq: term(s, None), outcome: full_outcome(s), tags,
+                input: json!({"run": ctx.input, "step": s.k}), oracle_fail: fails, known: vec![], in_domain });
+            made += 1;
+        }
+        // a whole run of consecutive steps under one version of the path: only the end state is compared
+        let v0 = ctx.steps[0].ver;
+        let m = ctx.steps.iter().take_while(|s| s.ver == v0 && s.post.is_ok()).count().min(12 + rr.below(20));
+        if m >= 2 {
+            let last = &ctx.steps[m - 1];
+            let mut tags = ctx.tags.clone(); tags.push(format!("sim:{}", if ss { "set_speed" } else { "speed_limit" })); tags.push(format!("run_len:{}", bucket(m)));
+            let mut fails = vec![];
+            if let (Ok(p), Some(c)) = (&last.post, &last.post_con) { oracle_levels(&p.st, c, &mut fails); }
+            sink.put(Case { id: format!("{}_run/{}", if ss { "ss_full" } else { "sl_full" }, ctx.id), kind: if ss { "ss_full_run".into() } else { "sl_full_run".into() },
+                coq: term(&ctx.steps[0], Some(m)), outcome: full_outcome(last), tags,
+                input: json!({"run": ctx.input, "steps": m}), oracle_fail: fails, known: vec![], in_domain: true });
+            made += 1;
+        }
+    }
+    record_consists(false);
+}
+
 pub fn run(seed: u64, n: usize, sink: &mut Sink) {
     let mut r = Rng::new(seed ^ 0xC11);
+    let n_full = n * 2 / 5;
+    { let mut rf = r.fork(); full_cases(&mut rf, n_full, sink); }
+    let n = n - n_full;
     let mut made = 0usize; let mut t = 0usize;
     while made < n {
         let use_default = t % 5 == 4;
